@@ -56,6 +56,11 @@ def work(arg: tuple) -> dict:
     bound = 0
     alpha = c07.alphabet(spec, tier)
     alpha = alpha[:2] + [a for a in alpha[2:] if a[0].startswith(('fail', 'fallback', 'ok-x2'))][: (3 if q else 5)]
+    if fam == 'corpus-deep':
+        # every single failing node (a failure upstream of a one-of candidate, inside a case, ...)
+        base = EN.base_plans(spec)[0]
+        alpha = [('ok0', base, {'x': 1}, 'first'), ('ok-x2', base, {'x': 2}, 'first')] + \
+                [(f'fail-{n}', dict(base, **{n: ['raise:E1']}), {'x': 1}, 'first') for n in spec['nodes']]
     out = dict(cases=0, executions=0, transitions=0, states=0, capped=0, viol=[], sample=None)
     tags = sorted(S.static_tags(spec))
     solos = {a[0]: solo(spec, a, bound) for a in alpha}
@@ -120,6 +125,9 @@ def run(prop: str, tier: str, seed: int) -> dict:
     for name, sp, _ in corpus.entries():
         if len(sp['nodes']) <= (4 if q else 5) and not (q and name.startswith('rec') and name != 'rec_min4'):
             items.append((tier, 'corpus', sp, 2))
+    for name, sp, _ in corpus.entries():
+        if name in (('oneof_chain2', 'switch_basic') if q else ('oneof_chain2', 'oneof_chain3', 'switch_basic', 'oneof_priv_anc', 'switch_shared_anc')):
+            items.append((tier, 'corpus-deep', sp, 2))
     for f in ['plain', 'switch', 'oneof', 'rec']:
         for sp in EN.family(f, tier):
             if len(sp['nodes']) <= ((3 if f == 'rec' else 4) if q else 4):
